@@ -6,28 +6,35 @@ from framework.registry import target, job, PROPS, COMMON_ASSUME
 target('c12', ['harness/c12_solve.cpp'])
 target('c12b', ['harness/c12_block.cpp'])
 
+def mjob(name, tgt, flav, ranks, args=(), **kw):
+    # own Open MPI session directory base per mpirun (see props/c11.py: concurrent mpiruns race in mkdir of the shared one)
+    env = dict(kw.pop('env', {})); env['OMPI_MCA_orte_tmpdir_base'] = '/tmp/vf-ompi/C12-' + name
+    return job(name, tgt, flav, mpi=ranks, args=list(args), env=env, **kw)
+
 def c12_jobs(tier):
     q = tier == 'quick'
     js = []
     ranks = (1, 2, 3, 4, 6, 8) if q else (1, 2, 3, 4, 5, 6, 7, 8)
     for r in ranks:
         # termination clause: a reproducible hang inside a solve is a violation (cases are small, the open case is the culprit)
-        js.append(job('solve-r%d' % r, 'c12', 'mpi-plain', mpi=r, shards=1 if q else 2, args=['--sub', 'solve'], timeout=2400 if q else 5400, hang_is_violation=True))
+        sh = 1 if q else 2
+        for k in range(sh):
+            js.append(mjob('solve-r%d-s%d' % (r, k), 'c12', 'mpi-plain', r, ['--sub', 'solve'] + (['--shard', '%d/%d' % (k, sh)] if sh > 1 else []), timeout=2400 if q else 5400, hang_is_violation=True))
     for r in ((2, 5) if q else (1, 2, 3, 4, 5, 6, 7, 8)):
-        js.append(job('setup-r%d' % r, 'c12', 'mpi-plain', mpi=r, args=['--sub', 'pmis,direct'], timeout=2400))
+        js.append(mjob('setup-r%d' % r, 'c12', 'mpi-plain', r, ['--sub', 'pmis,direct'], timeout=2400))
     # block size > 1 together with near-null-space vectors: separate processes (see sub_pmis in the harness)
     for r in ((1, 3) if q else (1, 2, 4, 7)):
-        js.append(job('pmisbk-r%d' % r, 'c12', 'mpi-plain', mpi=r, args=['--sub', 'pmis_bk'], timeout=2400))
-    js.append(job('asan-pmisbk-r2', 'c12', 'mpi-asan', mpi=2, args=['--sub', 'pmis_bk', '--pmis_bk_cases=4'], timeout=3600))
-    for r in ((3, 7) if q else (2, 4, 5, 8)):
-        js.append(job('block-r%d' % r, 'c12b', 'mpi-plain', mpi=r, timeout=2400 if q else 5400, hang_is_violation=True))
+        js.append(mjob('pmisbk-r%d' % r, 'c12', 'mpi-plain', r, ['--sub', 'pmis_bk'], timeout=2400))
+    js.append(mjob('asan-pmisbk-r2', 'c12', 'mpi-asan', 2, ['--sub', 'pmis_bk', '--pmis_bk_cases=4'], timeout=3600))
+    for r in ((3, 7) if q else (1, 2, 4, 5, 8)):
+        js.append(mjob('block-r%d' % r, 'c12b', 'mpi-plain', r, timeout=2400 if q else 5400, hang_is_violation=True))
     if q:
-        js.append(job('asan-r3', 'c12', 'mpi-asan', mpi=3, args=['--sub', 'solve,pmis,direct', '--solves=6', '--pmis_cases=6', '--direct_cases=6'], timeout=3600))
-        js.append(job('asan-block-r2', 'c12b', 'mpi-asan', mpi=2, args=['--block_solves=3', '--sdd_solves=3', '--bp_solves=3', '--direct_cases=4'], timeout=3600))
+        js.append(mjob('asan-r3', 'c12', 'mpi-asan', 3, ['--sub', 'solve,pmis,direct', '--solves=6', '--pmis_cases=6', '--direct_cases=6'], timeout=3600))
+        js.append(mjob('asan-block-r2', 'c12b', 'mpi-asan', 2, ['--block_solves=3', '--sdd_solves=3', '--bp_solves=3', '--direct_cases=4'], timeout=3600))
     else:
         for r in (2, 5):
-            js.append(job('asan-r%d' % r, 'c12', 'mpi-asan', mpi=r, args=['--sub', 'solve,pmis,direct', '--solves=48', '--pmis_cases=30', '--direct_cases=30'], timeout=7200))
-        js.append(job('asan-block-r3', 'c12b', 'mpi-asan', mpi=3, args=['--block_solves=16', '--sdd_solves=12', '--bp_solves=12', '--direct_cases=20'], timeout=7200))
+            js.append(mjob('asan-r%d' % r, 'c12', 'mpi-asan', r, ['--sub', 'solve,pmis,direct', '--solves=48', '--pmis_cases=30', '--direct_cases=30'], timeout=7200))
+        js.append(mjob('asan-block-r3', 'c12b', 'mpi-asan', 3, ['--block_solves=16', '--sdd_solves=12', '--bp_solves=12', '--direct_cases=20'], timeout=7200))
     return js
 
 PROPS['C12'] = dict(
